@@ -26,7 +26,7 @@ func init() {
 
 type c11Case struct {
 	Type string `json:"type"`
-	Bits uint64 `json:"bits"`            // integer value / IEEE bits / bool
+	Bits uint64 `json:"bits"`              // integer value / IEEE bits / bool
 	Im   uint64 `json:"im_bits,omitempty"` // imaginary part bits for complex
 }
 
